@@ -11,6 +11,33 @@ int main(int argc, char** argv) {
     Replay r(argv[1]);
     std::string ob = r.str("obligation");
     int bad = 0;
+    if (r.str("unit") == "dns.insertion_plan") {
+        // compressed message: 1 question, 0 answers, 1 authority, 2 additional; the second additional record's owner is a
+        // pointer to the first one's owner (message offset 51, i.e. after every splice point): each add_* must leave all
+        // sections readable with the same names.
+        static const uint8_t msg[] = { 0x12,0x34, 0x81,0x80, 0,1, 0,0, 0,1, 0,2,
+            3,'w','w','w', 7,'e','x','a','m','p','l','e', 3,'c','o','m', 0,  0,1, 0,1,
+            0xc0,16, 0,2, 0,1, 0,0,0,60, 0,6, 3,'n','s','1', 0xc0,16,
+            3,'n','s','1', 0xc0,16, 0,1, 0,1, 0,0,0,60, 0,4, 192,0,2,1,
+            0xc0,51, 0,1, 0,1, 0,0,0,60, 0,4, 192,0,2,2 };
+        for (int op = 0; op < 3; ++op) {
+            DNS dns(msg, sizeof msg);
+            DNS::resources_type au0 = dns.authority(), ad0 = dns.additional();
+            if (op == 0) dns.add_query(DNS::query("mail.example.org", DNS::A, DNS::IN));
+            if (op == 1) dns.add_answer(DNS::resource("www.example.com", "192.0.2.9", DNS::A, DNS::IN, 60));
+            if (op == 2) dns.add_authority(DNS::resource("example.com", "ns2.example.com", DNS::NS, DNS::IN, 60));
+            try {
+                DNS::resources_type au1 = dns.authority(), ad1 = dns.additional();
+                if (ad1.size() != ad0.size()) { printf("DEFECT: op %d: %zu additional records, had %zu\n", op, ad1.size(), ad0.size()); ++bad; continue; }
+                for (size_t i = 0; i < ad0.size(); ++i)
+                    if (ad1[i].dname() != ad0[i].dname() || ad1[i].data() != ad0[i].data()) { printf("DEFECT: op %d: additional[%zu] was (%s, %s), now (%s, %s)\n", op, i, ad0[i].dname().c_str(), ad0[i].data().c_str(), ad1[i].dname().c_str(), ad1[i].data().c_str()); ++bad; }
+                for (size_t i = 0; i < au0.size() && i < au1.size(); ++i)
+                    if (au1[i].dname() != au0[i].dname() || au1[i].data() != au0[i].data()) { printf("DEFECT: op %d: authority[%zu] changed\n", op, i); ++bad; }
+            } catch (const std::exception& e) { printf("DEFECT: op %d: sections unreadable after the insertion: %s\n", op, e.what()); ++bad; }
+        }
+        if (!bad) printf("ok\n");
+        return bad ? 1 : 0;
+    }
     if (ob.find("shifted iff") == std::string::npos) {
         DNS dns;
         dns.add_query(DNS::query("www.example.com", DNS::A, DNS::IN));
